@@ -1,2 +1,84 @@
-(* C11 — EDF round trip.  Property theorems only; proofs live in Edf/. (placeholder until Proofs.v) *)
-From Ergo Require Import Common.Base Common.Bytes Common.Codec Edf.Model.
+(* C11 — EDF round trip: what encodes, decodes to the same value.
+   Property theorems only; definitions in Edf/Model.v, proofs in Edf/Proofs.v. *)
+From Ergo Require Import Common.Base Common.Bytes Common.Codec Edf.Model Edf.Proofs.
+Local Open Scope N_scope.
+
+(* For every option set a handshake can produce (unique cache ids in their ranges), every type and
+   value of the model's universe (primitives, framework identifiers, time, errors, any nesting of
+   slices / arrays / maps / interfaces, registered structs and named types), and every continuation
+   [rest] of the input: whatever Encode accepts, Decode (with the connection's decoding options)
+   returns as the same type and the canonical form of the value, consuming exactly the bytes
+   produced.  [supported] is the explicit boolean guard excluding the three known findings. *)
+Theorem C11_roundtrip_partial : forall o t v bs rest,
+  wf_opts o -> supported o t v = true -> encode o t v = Ok bs ->
+  decode (dual o) (bs ++ rest) = Ok (t, canon o v, rest).
+Proof. exact roundtrip_partial. Qed.
+Print Assumptions C11_roundtrip_partial.
+
+(* the statement without the guard is false for the code as it is: [1][0]int *)
+Theorem C11_roundtrip_refuted :
+  exists o t v bs, wf_opts o /\ encode o t v = Ok bs /\ decode (dual o) (bs ++ []) <> Ok (t, canon o v, []).
+Proof. exact roundtrip_refuted. Qed.
+Print Assumptions C11_roundtrip_refuted.
+
+(* map[[2]int8]string *)
+Theorem C11_roundtrip_refuted_map_key :
+  exists bs, encode o_plain w_key_t w_key_v = Ok bs /\
+             decode (dual o_plain) (bs ++ []) <> Ok (w_key_t, canon o_plain w_key_v, []).
+Proof. exact roundtrip_refuted_map_key. Qed.
+Print Assumptions C11_roundtrip_refuted_map_key.
+
+(* an atom whose mapping target is longer than 255 bytes *)
+Theorem C11_roundtrip_refuted_atom_mapping :
+  exists bs, encode o_longmap (TPrim PAtom) (VBytes [115]) = Ok bs /\
+             decode (dual o_longmap) (bs ++ []) <> Ok (TPrim PAtom, canon o_longmap (VBytes [115]), []).
+Proof. exact roundtrip_refuted_atom_mapping. Qed.
+Print Assumptions C11_roundtrip_refuted_atom_mapping.
+
+(* nil and empty slices: different bytes, each comes back as sent *)
+Theorem C11_nil_vs_empty : forall o t,
+  wf_opts o -> desc_ok o (TSlice t) = true -> ty_enc_ok o t = true -> (1 <= o_fuel o)%nat ->
+  exists b1 b2, encode o (TSlice t) VNil = Ok b1 /\ encode o (TSlice t) (VList []) = Ok b2 /\ b1 <> b2 /\
+    decode (dual o) b1 = Ok (TSlice t, VNil, []) /\ decode (dual o) b2 = Ok (TSlice t, VList [], []).
+Proof. exact nil_vs_empty. Qed.
+Print Assumptions C11_nil_vs_empty.
+
+(* a registered sentinel error comes back as the same sentinel *)
+Theorem C11_sentinel_errors : forall o k txt bs rest,
+  wf_opts o -> err_cached o k = true -> encode o (TPrim PError) (VErr (Some k) txt) = Ok bs ->
+  decode (dual o) (bs ++ rest) = Ok (TPrim PError, VErr (Some k) txt, rest).
+Proof. exact sentinel_errors. Qed.
+Print Assumptions C11_sentinel_errors.
+
+(* the encoder's "too long" answer is given only for an over-long string / binary / atom / node or
+   process name / error text, and always for over-long strings, binaries and atoms *)
+Theorem C11_rejects_unrepresentable : forall o p v,
+  enc_prim o p v = Err ETooLong -> prim_overlong p v = true.
+Proof. exact rejects_only_overlong. Qed.
+Print Assumptions C11_rejects_unrepresentable.
+
+Theorem C11_overlong_rejected : forall o p v,
+  match p with PString | PBinary | PAtom => true | _ => false end = true ->
+  prim_overlong p v = true -> enc_prim o p v = Err ETooLong.
+Proof. exact overlong_rejected. Qed.
+Print Assumptions C11_overlong_rejected.
+
+(* the length check of decodeString as it was before 622a4d5 (sum computed in uint16) rejected
+   the encoder's output for 65534 and 65535 byte strings; the repaired check accepts them *)
+Theorem C11_string_wrap_before_fix : forall s r,
+  blen s = 65534 \/ blen s = 65535 -> get_lp 2 16 (put_lp 2 s ++ r) = Err EData.
+Proof. exact string_wrap_before_fix. Qed.
+Print Assumptions C11_string_wrap_before_fix.
+
+Theorem C11_string_after_fix : forall s r, blen s <= 65535 -> get_lp 2 64 (put_lp 2 s ++ r) = Ok (s, r).
+Proof. exact string_after_fix. Qed.
+Print Assumptions C11_string_after_fix.
+
+(* non-vacuity: a registered struct with interface, slice-of-struct, map, error and atom fields under
+   atom cache + atom mapping + type cache + error cache meets the hypotheses *)
+Example C11_example :
+  wf_opts ex_opts /\ supported ex_opts (TReg [35; 82]) ex_val = true /\
+  exists bs, encode ex_opts (TReg [35; 82]) ex_val = Ok bs /\ (40 <= length bs)%nat /\
+             decode (dual ex_opts) bs = Ok (TReg [35; 82], canon ex_opts ex_val, []).
+Proof. exact roundtrip_example. Qed.
+Print Assumptions C11_example.
